@@ -368,6 +368,10 @@ impl Worker {
                             loc: p["loc"].as_str().unwrap_or("").to_string(),
                         }
                     } else {
+                        if v.get("__recycle").is_some() {
+                            // the worker asked to be replaced (e.g. it holds a hung thread)
+                            self.kill();
+                        }
                         Obs::Ok(v)
                     }
                 }
